@@ -17,12 +17,19 @@ def new_workdir(tag):
     return d
 
 
-def boot(sim, rounds=100):
+def boot(sim, rounds=100, need_leader=False):
     for _ in range(rounds):
         sim.calm_round()
         sim.check(light=True)
         if sim.viol:
             return
+    if need_leader:
+        # split votes can repeat: keep going (bounded) until the healthy cluster has its leader
+        for _ in range(3000):
+            if sum(1 for n in sim.live() if sim.nodes[n]._isLeader()) == 1:
+                return
+            sim.calm_round()
+            sim.check(light=True)
 
 
 def run_steps(sim, case, extra_ops=None):
